@@ -127,7 +127,7 @@ GrantDurableStep(after, ev) ==
 \* known leader, neither wins the vote nor changes the voter's term
 LeaderStickinessStep(before, after, ev) ==
     ("kind" \in DOMAIN ev /\ ev.kind = "voteReq" /\ "result" \in DOMAIN ev /\ ~ev.transfer
-       /\ before[ev.n].up /\ "preLeader" \in DOMAIN ev /\ ev.preLeader # None /\ ev.preLeader # ev.from)
+       /\ before[ev.n].up /\ before[ev.n].leader # None /\ before[ev.n].leader # ev.from)
       => (ev.result # "success" /\ after[ev.n].term = before[ev.n].term /\ after[ev.n].vote = before[ev.n].vote)
 
 \* ---- membership (C08, C11): `acts` = what the leader did inside this step, observed at the instant it did it
@@ -166,6 +166,26 @@ RestartOKStep(gh, before, after, ev) ==
         /\ after[ev.n].term >= gh.maxTerm[ev.n]
         /\ \A g \in gh.grants : (g[1] = ev.n /\ g[2] = after[ev.n].term) => after[ev.n].vote = g[3]
 
+\* ---- leadership transfer (C16). `done` = tasks completed in this step as their submitters see them: [n, op, res]
+DoneOf(ev) == IF "done" \in DOMAIN ev THEN ev.done ELSE {}
+\* (the leader bookkeeping has one shape in the specification and another in the harness projection)
+XferOn(s)     == s.up /\ s.ldr.on /\ (IF "xferTerm" \in DOMAIN s.ldr THEN s.ldr.xfer ELSE s.ldr.xfer.on)
+XferTermOf(s) == IF "xferTerm" \in DOMAIN s.ldr THEN s.ldr.xferTerm ELSE s.ldr.xfer.term
+\* success is reported only once the old leader has stepped down in favour of a higher term
+TransferSuccessStep(before, after, ev) ==
+    \A d \in DoneOf(ev) : (d.op = "transfer" /\ d.res = "ok") =>
+        LET b == before[d.n]
+            a == after[d.n]
+        IN XferOn(b) /\ a.term > XferTermOf(b) /\ ~(a.up /\ a.state = "L" /\ a.term = XferTermOf(b))
+\* the designated successor is a voter that holds every entry the leader has accepted
+TransferTargetStep(ev) ==
+    \A a \in Acts(ev) : a.kind = "xferTarget" => (a.voter /\ a.match = a.last)
+\* while a transfer is in progress the leader accepts no client command and no membership change
+NoEntriesDuringTransferStep(before, after, T) ==
+    \A n \in T : (SameInc(before[n], after[n]) /\ XferOn(before[n]) /\ XferOn(after[n])
+                     /\ before[n].term = after[n].term /\ after[n].state = "L")
+                  => Last(after[n]) = Last(before[n])
+
 \* ---- end of a recorded run: every node was shut down; tasks and (after a fair, fault-free continuation) convergence
 IsFinal(ev) == "kind" \in DOMAIN ev /\ ev.kind = "final"
 AllTasksCompleteStep(ev) == IsFinal(ev) => Len(ev.pending) = 0
@@ -181,6 +201,9 @@ StepViolations(gh, before, after, ev, T) ==
   \cup (IF RestartOKStep(gh, before, after, ev) THEN {} ELSE {"C10_RestartOK"})
   \cup (IF AllTasksCompleteStep(ev) THEN {} ELSE {"C15_AllTasksComplete"})
   \cup (IF ConvergesStep(ev) THEN {} ELSE {"C17_Converges"})
+  \cup (IF TransferSuccessStep(before, after, ev) THEN {} ELSE {"C16_SuccessMeansSteppedDown"})
+  \cup (IF TransferTargetStep(ev) THEN {} ELSE {"C16_TargetEligible"})
+  \cup (IF NoEntriesDuringTransferStep(before, after, T) THEN {} ELSE {"C16_NoNewEntriesDuringTransfer"})
   \cup (IF ConfigOnlyWhenSafeStep(ev) THEN {} ELSE {"C08_ConfigOnlyWhenSafe"})
   \cup (IF PromoteAfterRoundStep(ev) THEN {} ELSE {"C11_PromoteAfterRound"})
   \cup (IF StopOnlyWhenRemovedStep(ev) THEN {} ELSE {"C11_StopOnlyWhenRemoved"})
@@ -301,6 +324,9 @@ C12_LabelOK(gh, ns) ==
 C10_RestartOK(gh) == "C10_RestartOK" \notin gh.bad
 
 \* C17(a): leader stickiness
+C16_SuccessMeansSteppedDown(gh) == "C16_SuccessMeansSteppedDown" \notin gh.bad
+C16_TargetEligible(gh) == "C16_TargetEligible" \notin gh.bad
+C16_NoNewEntriesDuringTransfer(gh) == "C16_NoNewEntriesDuringTransfer" \notin gh.bad
 C17_LeaderStickiness(gh) == "C17_LeaderStickiness" \notin gh.bad
 
 \* C15 (assertion part): no node died of a panic
